@@ -1,6 +1,7 @@
-(* C01 - the catalog: a table whose CREATE TABLE has returned is in the catalog that
-   Database::open loads from every power-loss image, and from every kill image whose catalog
-   file is not in the middle of being rewritten.  No side condition on the workload. *)
+(* C01 - the catalog.  CatalogPersistence::save writes a temporary file, syncs it and renames it
+   over turdb.catalog: the catalog that Database::open loads is complete in every kill image,
+   and a table whose CREATE TABLE has returned is in the catalog of every kill image and every
+   power-loss image.  No side condition on the workload. *)
 From Coq Require Import ZArith List Bool Lia.
 From TV Require Import Model.Crash Proof.CrashBase Proof.CrashStep Proof.CrashRun Proof.CrashMain.
 Import ListNotations.
@@ -9,35 +10,45 @@ Open Scope Z_scope.
 Definition created (os : list op) : list Z :=
   flat_map (fun o => match o with OCreate t _ _ _ _ => [t] | _ => [] end) os.
 
+(* the tables of T are in every copy of the catalog that could be loaded or renamed into place *)
 Definition Ccat (s : st) (T : list Z) : Prop :=
   (forall t, In t T -> In t (tabs s))
   /\ (forall ts, cat_v s = CatOk ts -> forall t, In t T -> In t ts)
-  /\ (forall t, In t T -> In t (cat_d s)).
+  /\ (forall t, In t T -> In t (cat_d s))
+  /\ (forall ts, cat_t s = CatOk ts -> forall t, In t T -> In t ts)
+  /\ (forall ts, cat_td s = Some ts -> forall t, In t T -> In t ts).
 
 Lemma cat_step : forall s T e, Ccat s T -> Ccat (apply_ev s e) T.
 Proof.
-  intros s T e [C1 [C2 C3]]. destruct e; cbn [apply_ev]; try (repeat split; assumption);
+  intros s T e [C1 [C2 [C3 [C4 C5]]]]. destruct e; cbn [apply_ev]; try (repeat split; assumption);
     try (destruct (mem f (files s)); repeat split; assumption).
   - (* EAddTab *) repeat split; sproj; try assumption. intros t0 H. apply In_add_z. right. apply C1. exact H.
-  - (* ECatTrunc *) repeat split; sproj; try assumption. intros ts H. discriminate.
+  - (* ECatTrunc *) repeat split; sproj; try assumption; intros ts H; discriminate.
   - (* ECatHdr *) repeat split; sproj; try assumption. intros ts H. discriminate.
   - (* ECatBody *) repeat split; sproj; try assumption. intros ts H t0 Ht. inversion H. subst. apply C1. exact Ht.
-  - (* ECatSync *) repeat split; sproj; try assumption. destruct (cat_v s) eqn:E; [| exact C3]. intros t0 Ht. apply (C2 ts eq_refl). exact Ht.
+  - (* ECatSync *) repeat split; sproj; try assumption. destruct (cat_t s) eqn:E; [| exact C5].
+    intros ts0 H t0 Ht. inversion H. subst. apply (C4 ts0 eq_refl). exact Ht.
+  - (* ECatRename *) repeat split; sproj; try assumption; try (intros ts H; discriminate).
+    destruct (cat_td s) eqn:E; [| exact C3]. intros t0 Ht. apply (C5 l eq_refl). exact Ht.
 Qed.
 Lemma cat_evs : forall es s T, Ccat s T -> Ccat (run_evs s es) T.
-Proof. induction es as [| e r IH]; intros s T H; [exact H |]. cbn [run_evs fold_left]. fold (run_evs (apply_ev s e) r). apply IH. apply cat_step. exact H. Qed.
+Proof.
+  induction es as [| e r IH]; intros s T H; [exact H |]. cbn [run_evs fold_left]. fold (run_evs (apply_ev s e) r).
+  apply IH. apply cat_step. exact H.
+Qed.
 
 (* events that leave the catalog alone *)
 Definition nocat (e : ev) : bool :=
-  match e with EAddTab _ | ECatTrunc | ECatHdr | ECatBody | ECatSync => false | _ => true end.
-Lemma nocat_pres : forall es s, forallb nocat es = true ->
-  tabs (run_evs s es) = tabs s /\ cat_v (run_evs s es) = cat_v s /\ cat_d (run_evs s es) = cat_d s.
+  match e with EAddTab _ | ECatTrunc | ECatHdr | ECatBody | ECatSync | ECatRename => false | _ => true end.
+
+Definition catpart (s : st) := (tabs s, cat_v s, cat_d s, cat_t s, cat_td s).
+
+Lemma nocat_pres : forall es s, forallb nocat es = true -> catpart (run_evs s es) = catpart s.
 Proof.
-  induction es as [| e r IH]; intros s H; [repeat split |].
+  induction es as [| e r IH]; intros s H; [reflexivity |].
   cbn [forallb] in H. apply andb_true_iff in H. destruct H as [He Hr]. cbn [run_evs fold_left]. fold (run_evs (apply_ev s e) r).
-  destruct (IH (apply_ev s e) Hr) as [A [B C]]. rewrite A, B, C.
-  destruct e; try discriminate; cbn [apply_ev]; try (repeat split; reflexivity);
-    destruct (mem f (files s)); repeat split; reflexivity.
+  rewrite (IH (apply_ev s e) Hr).
+  destruct e; try discriminate; cbn [apply_ev]; try reflexivity; destruct (mem f (files s)); reflexivity.
 Qed.
 Lemma nocat_map : forall {A} (f : A -> ev) l, (forall x, nocat (f x) = true) -> forallb nocat (map f l) = true.
 Proof. intros. apply forallb_forall. intros e He. apply in_map_iff in He. destruct He as [x [<- _]]. apply H. Qed.
@@ -48,49 +59,64 @@ Proof. induction l as [| a r IH]; intros H; [reflexivity |]. cbn [flat_map]. rew
 Lemma nocat_ckpt : forall s ord, forallb nocat (ckpt_evs s ord) = true.
 Proof. intros. unfold ckpt_evs. cbn [forallb nocat andb]. rewrite forallb_app, nocat_flat by (intros; reflexivity). reflexivity. Qed.
 
-Definition Cb (s : st) : Prop := cat_v s = CatOk (tabs s) /\ cat_d s = tabs s.
+(* the operations whose events never touch the catalog *)
+Lemma nocat_events : forall s o,
+  match o with OCreate _ _ _ _ _ | OReopen _ _ => True | _ => forallb nocat (events s o) = true end.
+Proof.
+  intros s o. destruct o; cbn [events]; try exact I.
+  - rewrite !forallb_app, !nocat_map; try reflexivity; try (intros []; reflexivity).
+    destruct (in_txn s); [reflexivity | rewrite nocat_flush; reflexivity].
+  - reflexivity.
+  - rewrite !forallb_app, nocat_flush. destruct (dirty s); [reflexivity | rewrite nocat_map by reflexivity; reflexivity].
+  - rewrite forallb_app, nocat_ckpt. reflexivity.
+  - destruct (ever_dirty s); [| reflexivity].
+    rewrite !forallb_app, nocat_flat by (intros; apply nocat_flush).
+    destruct (cur_fl s ++ buf s ++ map (fun k => (k, None)) (dirty s)); reflexivity.
+Qed.
+
+Definition create_prefix (t h r hi ri : Z) : list ev :=
+  [ECreate t; EStore t 0 h; EMsync t; EGrow t; EStore t 1 r; ECreate (idx_file t); EStore (idx_file t) 0 hi;
+   EMsync (idx_file t); EGrow (idx_file t); EStore (idx_file t) 1 ri].
+Lemma create_events : forall s t h r hi ri,
+  events s (OCreate t h r hi ri) = create_prefix t h r hi ri ++ EAddTab t :: cat_save ++ [EMetaW; EMetaSync; EAck].
+Proof. reflexivity. Qed.
+
+(* between operations: the catalog file and its durable content list the in-memory tables, and
+   there is no temporary file *)
+Definition Cb (s : st) : Prop :=
+  cat_v s = CatOk (tabs s) /\ cat_d s = tabs s /\ cat_t s = CatTorn /\ cat_td s = None.
 
 Lemma step_cb : forall s o, Cb s ->
   Cb (step s o) /\ (forall t, In t (tabs s) -> In t (tabs (step s o)))
   /\ (forall t, In t (created [o]) -> In t (tabs (step s o))).
 Proof.
-  intros s o [B1 B2]. unfold step.
+  intros s o [B1 [B2 [B3 B4]]]. unfold step.
   assert (NC : forall es, forallb nocat es = true ->
                Cb (run_evs s es) /\ (forall t, In t (tabs s) -> In t (tabs (run_evs s es)))).
-  { intros es H. destruct (nocat_pres es s H) as [A [B C]]. unfold Cb. rewrite A, B, C. repeat split; auto. }
-  destruct o; cbn [events created flat_map app].
+  { intros es H. pose proof (nocat_pres es s H) as E. unfold catpart in E. inversion E as [[E1 E2 E3 E4 E5]].
+    unfold Cb. rewrite E1, E2, E3, E4, E5. repeat split; auto. }
+  pose proof (nocat_events s o) as NE.
+  destruct o; cbn [created flat_map app];
+    try (destruct (NC _ NE) as [X Y]; split; [exact X | split; [exact Y | intros t0 []]]).
   - (* OCreate *)
-    set (P := [ECreate t; EStore t 0 h; EMsync t; EGrow t; EStore t 1 r; ECreate (idx_file t); EStore (idx_file t) 0 hi;
-               EMsync (idx_file t); EGrow (idx_file t); EStore (idx_file t) 1 ri]).
-    change (ECreate t :: EStore t 0 h :: EMsync t :: EGrow t :: EStore t 1 r :: ECreate (idx_file t) :: EStore (idx_file t) 0 hi
-            :: EMsync (idx_file t) :: EGrow (idx_file t) :: EStore (idx_file t) 1 ri :: EAddTab t :: cat_save ++ [EMetaW; EMetaSync; EAck])
-      with (P ++ (EAddTab t :: cat_save ++ [EMetaW; EMetaSync; EAck])).
-    rewrite run_evs_app. destruct (nocat_pres P s eq_refl) as [A1 [A2 A3]]. set (s1 := run_evs s P) in *.
-    unfold run_evs, Cb. cbn [cat_save app fold_left apply_ev]. sproj. rewrite A1.
+    rewrite create_events, run_evs_app.
+    pose proof (nocat_pres (create_prefix t h r hi ri) s eq_refl) as E.
+    remember (run_evs s (create_prefix t h r hi ri)) as s1 eqn:Hs1. clear Hs1.
+    unfold catpart in E. inversion E as [[E1 E2 E3 E4 E5]].
+    unfold run_evs, Cb. cbn [cat_save app fold_left apply_ev]. sproj. rewrite E1.
     repeat split; [intros t0 H; apply In_add_z; auto | intros t0 [<- | []]; apply In_add_z; auto].
-  - destruct (NC (events s (ODml t marks body post))) as [X Y]; [| repeat split; [apply X | apply X | exact Y | intros t0 []]].
-    cbn [events]. rewrite !forallb_app, !nocat_map; try reflexivity; try (intros []; reflexivity).
-    destruct (in_txn s); [reflexivity | rewrite nocat_flush; reflexivity].
-  - destruct (NC (events s OBegin)) as [X Y]; [reflexivity | repeat split; [apply X | apply X | exact Y | intros t0 []]].
-  - destruct (NC (events s (OCommit ord))) as [X Y]; [| repeat split; [apply X | apply X | exact Y | intros t0 []]].
-    cbn [events]. rewrite !forallb_app, nocat_flush. destruct (dirty s); [reflexivity | rewrite nocat_map by reflexivity; reflexivity].
-  - destruct (NC (events s (OCkpt ord))) as [X Y]; [| repeat split; [apply X | apply X | exact Y | intros t0 []]].
-    cbn [events]. rewrite forallb_app, nocat_ckpt. reflexivity.
-  - destruct (NC (events s OApiCkpt)) as [X Y]; [| repeat split; [apply X | apply X | exact Y | intros t0 []]].
-    cbn [events]. destruct (ever_dirty s); [| reflexivity].
-    rewrite !forallb_app, nocat_flat by (intros; apply nocat_flush).
-    destruct (cur_fl s ++ buf s ++ map (fun k => (k, None)) (dirty s)); reflexivity.
   - (* OReopen *)
-    rewrite !run_evs_app.
-    destruct (nocat_pres (ckpt_evs s ord1) s (nocat_ckpt s ord1)) as [A1 [A2 A3]].
-    set (s1 := run_evs s (ckpt_evs s ord1)) in *.
+    cbn [events]. rewrite (run_evs_app (ckpt_evs s ord1)), (run_evs_app cat_save).
+    pose proof (nocat_pres (ckpt_evs s ord1) s (nocat_ckpt s ord1)) as E.
+    remember (run_evs s (ckpt_evs s ord1)) as s1 eqn:Hs1. clear Hs1.
+    unfold catpart in E. inversion E as [[E1 E2 E3 E4 E5]].
     set (s2 := run_evs s1 cat_save).
-    assert (T2 : tabs s2 = tabs s /\ cat_v s2 = CatOk (tabs s) /\ cat_d s2 = tabs s).
-    { subst s2. cbn [cat_save run_evs fold_left apply_ev]. sproj. rewrite A1. repeat split. }
-    destruct T2 as [T2a [T2b T2c]].
-    destruct (nocat_pres (map EMsync (arrange ord2 (files s)) ++ [EReset; ESetLen; EAck]) s2) as [C1 [C2 C3]].
-    { rewrite forallb_app, nocat_map by reflexivity. reflexivity. }
-    rewrite <- run_evs_app. fold s2. unfold Cb. rewrite C1, C2, C3, T2a, T2b, T2c. repeat split; auto. intros t0 [].
+    assert (T2 : catpart s2 = (tabs s, CatOk (tabs s), tabs s, CatTorn, None)).
+    { subst s2. unfold catpart. cbn [cat_save run_evs fold_left apply_ev]. sproj. rewrite E1. reflexivity. }
+    assert (NT : forallb nocat (map EMsync (arrange ord2 (files s)) ++ [EReset; ESetLen; EAck]) = true)
+      by (rewrite forallb_app, nocat_map by reflexivity; reflexivity).
+    pose proof (nocat_pres _ s2 NT) as E'. rewrite T2 in E'. unfold catpart in E'. inversion E' as [[F1 F2 F3 F4 F5]].
+    unfold Cb. rewrite F1, F2, F3, F4, F5. repeat split; auto.
 Qed.
 
 Lemma run_cb : forall os s, Cb s ->
@@ -105,22 +131,80 @@ Proof.
     + right. exact A.
 Qed.
 
+(* ------------------------------------------------------------------ the catalog file is never torn *)
+Definition is_ok (c : catf) : bool := match c with CatOk _ => true | CatTorn => false end.
+Fixpoint rename_ok (s : st) (es : list ev) : bool :=
+  match es with
+  | [] => true
+  | e :: r => (match e with ECatRename => is_ok (cat_t s) | _ => true end) && rename_ok (apply_ev s e) r
+  end.
+Lemma rename_ok_app : forall a b s, rename_ok s (a ++ b) = rename_ok s a && rename_ok (run_evs s a) b.
+Proof.
+  induction a as [| e r IH]; intros; cbn [app rename_ok run_evs fold_left]; [reflexivity |].
+  fold (run_evs (apply_ev s e) r). rewrite IH, andb_assoc. reflexivity.
+Qed.
+Lemma rename_ok_nocat : forall es s, forallb nocat es = true -> rename_ok s es = true.
+Proof.
+  induction es as [| e r IH]; intros s H; [reflexivity |]. cbn [forallb] in H. apply andb_true_iff in H. destruct H as [He Hr].
+  cbn [rename_ok]. rewrite (IH _ Hr). destruct e; try discriminate; reflexivity.
+Qed.
+Lemma rename_ok_save : forall s, rename_ok s cat_save = true.
+Proof. intros. reflexivity. Qed.
+
+Lemma catv_prefix : forall es s n, is_ok (cat_v s) = true -> rename_ok s es = true ->
+  is_ok (cat_v (run_evs s (firstn n es))) = true.
+Proof.
+  induction es as [| e r IH]; intros s n G R; [destruct n; exact G |].
+  destruct n as [| n]; [exact G |]. cbn [firstn run_evs fold_left]. fold (run_evs (apply_ev s e) (firstn n r)).
+  cbn [rename_ok] in R. apply andb_true_iff in R. destruct R as [R1 R2]. apply IH; [| exact R2].
+  destruct e; cbn [apply_ev]; try exact G; try (destruct (mem f (files s)); exact G). sproj. exact R1.
+Qed.
+
+Lemma rename_ok_events : forall s o, rename_ok s (events s o) = true.
+Proof.
+  intros s o. pose proof (nocat_events s o) as NE.
+  destruct o; try (apply rename_ok_nocat; exact NE).
+  - rewrite create_events.
+    change (create_prefix t h r hi ri ++ EAddTab t :: cat_save ++ [EMetaW; EMetaSync; EAck])
+      with (create_prefix t h r hi ri ++ [EAddTab t] ++ cat_save ++ [EMetaW; EMetaSync; EAck]).
+    rewrite !rename_ok_app, rename_ok_save. rewrite (rename_ok_nocat (create_prefix t h r hi ri)) by reflexivity. reflexivity.
+  - cbn [events]. rewrite !rename_ok_app, rename_ok_save. rewrite (rename_ok_nocat (ckpt_evs s ord1)) by apply nocat_ckpt.
+    rewrite rename_ok_nocat; [reflexivity |]. rewrite forallb_app, nocat_map by reflexivity. reflexivity.
+Qed.
+
+Lemma Cb_init : Cb init.
+Proof. repeat split. Qed.
+
+Lemma kill_always_opens_l : forall os i n, r_open (recover Kill (at_pos os i n)) = true.
+Proof.
+  intros os i n.
+  destruct (run_cb (firstn i os) init Cb_init) as [[B1 _] _].
+  assert (G : is_ok (cat_v (at_pos os i n)) = true).
+  { unfold at_pos. destruct (nth_error os i); [| rewrite B1; reflexivity].
+    apply catv_prefix; [rewrite B1; reflexivity | apply rename_ok_events]. }
+  cbn [recover r_open]. destruct (cat_v (at_pos os i n)); [reflexivity | discriminate].
+Qed.
+
 Lemma tables_durable_l : forall os i n t, In t (created (firstn i os)) ->
   r_open (recover Power (at_pos os i n)) = true
   /\ In t (r_tabs (recover Power (at_pos os i n)))
-  /\ (cat_ok (at_pos os i n) = true -> In t (r_tabs (recover Kill (at_pos os i n)))).
+  /\ r_open (recover Kill (at_pos os i n)) = true
+  /\ In t (r_tabs (recover Kill (at_pos os i n))).
 Proof.
   intros os i n t H.
-  assert (B0 : Cb init) by (split; reflexivity).
-  destruct (run_cb (firstn i os) init B0) as [[B1 B2] TT].
-  assert (C0 : Ccat (run init (firstn i os)) (tabs (run init (firstn i os)))).
-  { unfold Ccat. split; [auto |]. split.
-    - intros ts E t0 Ht. rewrite B1 in E. inversion E. subst. exact Ht.
-    - intros t0 Ht. rewrite B2. exact Ht. }
-  assert (CP : Ccat (at_pos os i n) (tabs (run init (firstn i os)))).
-  { unfold at_pos. destruct (nth_error os i); [apply cat_evs; exact C0 | exact C0]. }
-  destruct CP as [_ [P2 P3]]. assert (Tin : In t (tabs (run init (firstn i os)))) by (apply TT; right; exact H).
-  split; [reflexivity |]. split; [apply P3; exact Tin |].
-  intros CO. unfold cat_ok in CO. cbn [recover r_tabs]. destruct (cat_v (at_pos os i n)) eqn:E; [| discriminate].
-  apply (P2 ts eq_refl). exact Tin.
+  destruct (run_cb (firstn i os) init Cb_init) as [[B1 [B2 [B3 B4]]] TT].
+  set (s0 := run init (firstn i os)) in *.
+  assert (C0 : Ccat s0 (tabs s0)).
+  { unfold Ccat. split; [auto |]. split; [| split; [| split]].
+    - intros ts E x Hx. rewrite B1 in E. inversion E. subst. exact Hx.
+    - intros x Hx. rewrite B2. exact Hx.
+    - intros ts E. rewrite B3 in E. discriminate.
+    - intros ts E. rewrite B4 in E. discriminate. }
+  assert (CP : Ccat (at_pos os i n) (tabs s0)).
+  { unfold at_pos. fold s0. destruct (nth_error os i); [apply cat_evs; exact C0 | exact C0]. }
+  destruct CP as [_ [P2 [P3 _]]].
+  assert (Tin : In t (tabs s0)) by (apply TT; right; exact H).
+  pose proof (kill_always_opens_l os i n) as KO.
+  split; [reflexivity |]. split; [apply P3; exact Tin |]. split; [exact KO |].
+  cbn [recover r_tabs r_open] in *. destruct (cat_v (at_pos os i n)) eqn:E; [| discriminate]. apply (P2 ts eq_refl). exact Tin.
 Qed.
